@@ -29,7 +29,7 @@ CHECKS = {
  "C12": ("exploration", "version x Connection-header variants at every pipeline position, followed by further requests, client half-closing or not, handlers answering late and out of order, a streamed body the handler never reads and the client holds back until the answer (and, for a connection-ending request, until end-of-stream), plus mixed-feature conversations; nothing served after a connection-ending request, EOF right after the last response, persistence otherwise", "conversation oracle against the reference request model"),
  "C16": ("exploration", "smuggling-prone header syntax (whitespace before/inside the name or before the colon, invalid Content-Length classes) at every pipeline position with a would-be smuggled request as body and further requests behind; 400 + close, neither offending nor smuggled request delivered", "conversation oracle against the reference request model"),
  "C17": ("exploration", "0..4 unblock calls at generated instants against 1-4 receivers mixing the receive calls and 0-2 connections; released calls never exceed unblock calls, no token or request left queued while a receiver blocks, try_recv takes zero virtual time, empty recv_timeout within [T-1ms, 2T] in strict virtual time (with and without spurious wake-ups)", "token accounting + virtual-clock bounds"),
- "C20": ("exploration", "burst histories then (A) server drop at a generated instant with requests pending/queued/handed out, connect attempts afterwards and late answers, or (B) all clients close and live library threads are counted 4.9 s / 5.001 s after the last activity in strict virtual time, or (C) one short connection per second keeps arriving after a burst of 16..40 and the surplus workers must still be gone 6.5 s after it", "virtual-time shutdown/reclaim oracle"),
+ "C20": ("exploration", "burst histories then (A) server drop at a generated instant with requests pending/queued/handed out, connect attempts afterwards and late answers, or (B) all clients close and live library threads are counted one idle period (measured by a calibration run, not assumed) + 1 ms after the last activity in strict virtual time, or (C) one short connection per fifth of an idle period keeps arriving after a burst of 16..40 and the surplus workers must still be gone 1.3 idle periods after it", "virtual-time shutdown/reclaim oracle"),
 }
 
 NA = {
